@@ -7,7 +7,11 @@
 From Coq Require Import NArith ZArith List Bool.
 From Clemens Require Import Base.Res Base.Word Pos.Types Att.Attacks Pos.Position Pos.Inv Eval.Eval.
 From Clemens.C15Mirror Require Import Mirror MirrorEval MirrorGo MirrorExamples MirrorInv.
-From Clemens Require Search.GoInst.
+From Clemens Require Search.GoInst Eval.SeeInst.
+From Clemens Require Import Pos.ZobristProofs.
+From Clemens.C15Bound Require Import Material EvalZ EvalW Bound Play Game.
+From Clemens.C15Bound Require Examples.
+From Clemens.C10Inv Require InvStep InvReach.
 Open Scope Z_scope.
 
 (* the Go build: no side condition *)
@@ -83,8 +87,8 @@ Proof. exact Inv_shape. Qed.
 Print Assumptions C15_Inv_shape.
 
 (* the constants the theorems are about are the ones the extracted model (and so the correspondence check) uses *)
-Theorem C15_constants_tied : go_econsts = Search.GoInst.go_econsts.
-Proof. reflexivity. Qed.
+Theorem C15_constants_tied : go_econsts = Search.GoInst.go_econsts /\ Eval.SeeInst.go_econsts = Search.GoInst.go_econsts.
+Proof. split; reflexivity. Qed.
 Print Assumptions C15_constants_tied.
 
 (* non-vacuity: three asymmetric positions (Kiwipete; a Sicilian with an en-passant square; a black-to-move
@@ -98,3 +102,74 @@ Example C15_hyps_met :
    eval_raw go_econsts mx_p3 = Ok (-257) /\ eval_raw go_econsts (mirror mx_p3) = Ok (-257)).
 Proof. exact eval_mirror_hyps_met. Qed.
 Print Assumptions C15_hyps_met.
+
+(* ================= second half: the static score never looks like a mate score; no int16 operation wraps ================= *)
+(* [material_ok] (C15Bound/Material.v, executable, reads the square array only): per side one king, at most 8
+   pawns, and promoted pieces paid for by missing pawns:
+   max(0,N-2) + max(0,B-2) + max(0,R-2) + max(0,Q-1) <= 8 - P.  The mate range is |v| > INF - maxPlies = 32667. *)
+Theorem C15_eval_safe : forall p, Inv p -> material_ok p = true ->
+  exists v, eval_raw Eval.SeeInst.go_econsts p = Ok v /\ eval_raw_Z Eval.SeeInst.go_econsts p = Ok v /\
+            Z.abs v <= 14193 /\ is_checkmate_value Eval.SeeInst.go_econsts v = false.
+Proof. exact eval_safe. Qed.
+Print Assumptions C15_eval_safe.
+
+(* no int16 operation wraps: the result is that of the same formula over the unbounded integers.
+   [eval_raw_Z] is Eval/Eval.v with +, -, * for add16, sub16, mul16 and no wrap16; that this is the ONLY difference is
+   machine-checked: both are instances of one text [eval_raw_W] with the wrap as a parameter *)
+Theorem C15_eval_no_wrap : forall p, Inv p -> material_ok p = true ->
+  eval_raw Eval.SeeInst.go_econsts p = eval_raw_Z Eval.SeeInst.go_econsts p.
+Proof. exact eval_no_wrap. Qed.
+Print Assumptions C15_eval_no_wrap.
+
+Theorem C15_eval_raw_W_instances : forall C p,
+  eval_raw_W wrap16 C p = eval_raw C p /\ eval_raw_W (fun x => x) C p = eval_raw_Z C p.
+Proof. exact (fun C p => conj (eval_raw_W_is_model C p) (eval_raw_W_is_Z C p)). Qed.
+Print Assumptions C15_eval_raw_W_instances.
+
+(* the accumulators: |mid|, |end| <= 1145 (calculateScore multiplies them by at most 24: 27480 <= 32767), |base| <= 13048 *)
+Theorem C15_eval_parts_no_wrap : forall p, Inv p -> material_ok p = true ->
+  eval_parts Eval.SeeInst.go_econsts p = eval_parts_Z Eval.SeeInst.go_econsts p /\
+  exists m e b, eval_parts Eval.SeeInst.go_econsts p = Ok (m, e, b) /\
+    Z.abs m <= 1145 /\ Z.abs e <= 1145 /\ Z.abs b <= 13048.
+Proof. exact eval_parts_no_wrap. Qed.
+Print Assumptions C15_eval_parts_no_wrap.
+
+Theorem C15_eval_no_panic : forall p, Inv p -> material_ok p = true ->
+  eval_raw Eval.SeeInst.go_econsts p <> Panic /\ eval_raw Eval.SeeInst.go_econsts p <> Err.
+Proof. exact eval_no_panic. Qed.
+Print Assumptions C15_eval_no_panic.
+
+(* the material hypothesis is needed: positions that satisfy the invariant but not the accounting of legal chess
+   (nine pawns; 27 knights; 36 queens) make the evaluation panic, wrap, or return a mate-range score *)
+Theorem C15_eval_bound_needs_material :
+  ~ (forall p, Inv p -> exists v, eval_raw Eval.SeeInst.go_econsts p = Ok v /\ is_checkmate_value Eval.SeeInst.go_econsts v = false) /\
+  ~ (forall p, Inv p -> eval_raw Eval.SeeInst.go_econsts p = eval_raw_Z Eval.SeeInst.go_econsts p) /\
+  ~ (forall p, Inv p -> eval_raw Eval.SeeInst.go_econsts p <> Panic).
+Proof. exact Examples.eval_bound_needs_material. Qed.
+Print Assumptions C15_eval_bound_needs_material.
+
+(* [material_ok] is an invariant of play: New() has it, every generated move keeps it (captures only remove men, a
+   promotion turns one pawn into one piece; no king is captured: C10) *)
+Theorem C15_material_new_position : forall (K : zkeys) p, new_position K = Ok p -> material_ok p = true.
+Proof. exact material_new_position. Qed.
+Print Assumptions C15_material_new_position.
+
+Theorem C15_material_step : forall (K : zkeys) p ms m q,
+  material_ok p = true -> Inv p -> gen_moves p = Ok ms -> In m ms -> make_move K p m = Ok q -> material_ok q = true.
+Proof. exact (material_step_from_C10 InvStep.gen_step_nocheck). Qed.
+Print Assumptions C15_material_step.
+
+(* hence the bound for every position of every game from the start position *)
+Theorem C15_eval_bound_game : forall (K : zkeys) p, game_pos K p ->
+  exists v, eval_raw Eval.SeeInst.go_econsts p = Ok v /\ eval_raw_Z Eval.SeeInst.go_econsts p = Ok v /\
+            Z.abs v <= 14193 /\ is_checkmate_value Eval.SeeInst.go_econsts v = false.
+Proof. exact (fun K => eval_bound_game K (InvReach.inv_step_holds K)). Qed.
+Print Assumptions C15_eval_bound_game.
+
+(* non-vacuity of the second half: the start position, a three-queen and a nine-queen position meet the hypotheses *)
+Example C15_bound_hyps_met :
+  (Inv Examples.start_pos /\ material_ok Examples.start_pos = true /\ eval_raw Eval.SeeInst.go_econsts Examples.start_pos = Ok 0) /\
+  (Inv Examples.three_queens /\ material_ok Examples.three_queens = true /\ eval_raw Eval.SeeInst.go_econsts Examples.three_queens = Ok 3292) /\
+  (Inv Examples.nine_queens /\ material_ok Examples.nine_queens = true /\ eval_raw Eval.SeeInst.go_econsts Examples.nine_queens = Ok 10408).
+Proof. unfold Inv. repeat split; vm_compute; reflexivity. Qed.
+Print Assumptions C15_bound_hyps_met.
